@@ -269,7 +269,20 @@ impl CommitPipeline {
 		self.oracle.reset_for_restore(max_seq);
 	}
 
-	pub(crate) async fn commit(&self, mut batch: Batch, sync: bool, start_seq: u64) -> Result<()> {
+	#[cfg(any(test, feature = "verif"))]
+	pub(crate) async fn commit(&self, batch: Batch, sync: bool, start_seq: u64) -> Result<()> {
+		self.commit_in_epoch(batch, sync, start_seq, None).await
+	}
+
+	/// `commit` for a transaction that began in restore epoch `epoch` (see
+	/// `CommitOracle::check_in_epoch`).
+	pub(crate) async fn commit_in_epoch(
+		&self,
+		mut batch: Batch,
+		sync: bool,
+		start_seq: u64,
+		epoch: Option<u64>,
+	) -> Result<()> {
 		if self.shutdown.load(Ordering::Acquire) {
 			return Err(Error::PipelineStall);
 		}
@@ -320,7 +333,11 @@ impl CommitPipeline {
 
 			// Validate against the oracle. No state has changed yet; on
 			// failure `?` simply returns the error to the caller.
-			self.oracle.check(batch.entries.iter().map(|e| e.key.as_slice()), start_seq)?;
+			self.oracle.check_in_epoch(
+				batch.entries.iter().map(|e| e.key.as_slice()),
+				start_seq,
+				epoch,
+			)?;
 
 			let count = batch.count() as u64;
 			let seq_num = self.log_seq_num.fetch_add(count, Ordering::SeqCst);
@@ -449,6 +466,11 @@ impl CommitPipeline {
 	#[cfg(test)]
 	pub(crate) fn oracle(&self) -> &Arc<CommitOracle> {
 		&self.oracle
+	}
+
+	/// Restore epoch of the oracle (remembered by a beginning transaction).
+	pub(crate) fn restore_epoch(&self) -> u64 {
+		self.oracle.epoch()
 	}
 
 	fn publish(&self) {
